@@ -10,17 +10,28 @@ package cleanup
 // adds no code. Lines starting with //@ are parsed by govc; see /verif/DESIGN.md.
 
 // C07: a cleanup controller releases its finalizer on a torn-down input only after its removal
-// handler succeeded. frCalls / frNil are ghost state written by the interface contract of the
-// handler: the number of FinalizerRemoval calls and whether the last one returned nil.
+// handler succeeded. frCalls / frFail are ghost state written by the interface contract of the
+// handler: the number of FinalizerRemoval calls made and the number of those that returned an error
+// (a combined handler counts the calls of its parts as well).
 //@ ghostvar frCalls int
-//@ ghostvar frNil bool
+//@ ghostvar frFail int
 //@ iface Handler.FinalizerRemoval
-//@   modifies frCalls, frNil
-//@   ensures [fr-record] frCalls == old(frCalls) + 1 && frNil == (result == nil)
+//@   modifies frCalls, frFail
+//@   ensures [fr-record] frCalls > old(frCalls) && frFail >= old(frFail) && (result == nil <==> frFail == old(frFail))
 //@
 //@ func (*Controller[I]).processInput
 //@   props C07
 //@   requires [wired] ctrl != nil && r != nil && logger != nil && ctrl.handler != nil
 //@   at RemoveFinalizer #1
-//@     assert [finalizer-released-only-after-handler-succeeded] frCalls == old(frCalls) + 1 && frNil
+//@     assert [finalizer-released-only-after-handler-succeeded] frCalls > old(frCalls) && frFail == old(frFail)
 //@     assert [finalizer-released-only-on-torn-down-input] mdOf(inputElem).phase == 1
+//@
+// A combined handler reports success only if every part did: it is itself a Handler and must meet
+// the interface contract above.
+//@ func (*combinedHandler[I]).FinalizerRemoval
+//@   props C07
+//@   requires [wired] c != nil && len(c.handlers) > 0 && (forall k int :: 0 <= k && k < len(c.handlers) ==> c.handlers[k] != nil)
+//@   modifies frCalls, frFail
+//@   ensures [success-only-if-every-part-succeeded] frCalls > old(frCalls) && frFail >= old(frFail) && (result == nil <==> frFail == old(frFail))
+//@   loop #1
+//@     invariant [parts-so-far-succeeded] frFail == old(frFail) && frCalls >= old(frCalls) + rangeindex + 1 && c != nil
